@@ -592,8 +592,14 @@ func ruleHooks(c *chk.Ctx) {
 					}
 				})
 				c.Check(settled, "HOOK.cancel", f, "OnCancel after settle", ci.Pos(), "the hook runs after the Response has settled", "the cancel hook may run before the Response has settled")
-				// the closure that runs the hook is installed only after the token was taken (slot written)
+				// the closure that runs the hook is installed only after the token was taken (slot written),
+				// or the hook is called inline after the slot write
 				installed := false
+				ir.Instrs(f, func(i3 ssa.Instruction) {
+					if s, ok := i3.(*ssa.Send); ok && chk.LoadsField(s.Chan, c.M.RCh) && ir.InstrDominates(s, ci) {
+						installed = true
+					}
+				})
 				if f.Parent() != nil {
 					ir.Instrs(f.Parent(), func(i2 ssa.Instruction) {
 						mc, ok := i2.(*ssa.MakeClosure)
